@@ -1015,7 +1015,8 @@ def gen_in_transform_spec(rng, failing=False):
             spec["contents"][cid] = {"fam": fam, "len": n, "muts": muts}
             spec["files"].append({"p": d + "/" + name, "c": cid})
     o = spec["opts"]
-    o.update({"isolate": False, "symbolic_links": False, "min_size": 0, "max_size": None, "cache": False,
+    # (the hash cache together with a `$IN` / `$OUT` transform: the transform's private temp directory must outlive the set-up)
+    o.update({"isolate": False, "symbolic_links": False, "min_size": 0, "max_size": None, "cache": (not failing) and rng.chance(1, 2),
               "rf_over": rng.choice([None, 0, 1]), "rf_under": None, "unique": False, "match_links": False})
     if failing:
         o["transform"] = "failsome.sh " + rng.choice(FAIL_MODES)
